@@ -49,7 +49,9 @@ def gen_cases(ctx):
         c["n"] = int(rng.choice([10, 50, 100, 200], p=[0.2, 0.4, 0.3, 0.1]))
         c["N"] = int(rng.choice([2, 4, 8]))
         c["strain"] = float(rng.choice([1.0, 2.0, 3.0]))
-        c["regime"] = int(rng.choice([4, 4, 6]))
+        c["regime"] = int(rng.choice([4, 4, 6, 4, 6, 0, 7, 1]))   # sliding applies in every accepted regime
+        if rng.random() < 0.2:
+            c["regime2"] = int(rng.choice([0, 7, 1, 4, 6]))
         c["params"]["gbm_mobility"] = float(rng.choice([125.0, 200.0]))
         c["params"]["nucleation_efficiency"] = 5.0
         c["params"]["gbs_threshold"] = float(rng.choice([0.0, 0.3, 0.4, 0.9, rng.uniform(0.05, 0.95)]))
@@ -182,6 +184,7 @@ def _history(ctx, pydrex, case):
     ctx.count("grains_crossed_threshold", frozen_cmp["crossed"])
     ctx.case(case, nontrivial=frozen_cmp["n"] > 0)
     ctx.cls(f"hist:chi={'0' if chi == 0 else '>0'}")
+    ctx.cls(f"hist:regime={H.regime}" + (f"->{H.regime2}" if H.regime2 is not None else "") + f"/{H.regime_via}")
     if len(ctx.samples) < 4 and frozen_cmp["n"] > 0:
         ctx.sample(case, frozen_grain_comparisons=frozen_cmp["n"], crossed=frozen_cmp["crossed"],
                    min_stored_fraction=float(min(f.min() for f in m.fractions)))
